@@ -227,6 +227,8 @@ func (e *enc) inline(x *ssa.Call, callee *ssa.Function, argVals []ssa.Value, arg
 		fr2.val[p] = args[i]
 		if l, ok := fr.loc[argVals[i]]; ok {
 			fr2.loc[p] = l
+		} else if g, ok := argVals[i].(*ssa.Global); ok {
+			fr2.loc[p] = e.locOf(g) // &globalVar passed as an argument
 		}
 		if l, ok := fr.prov[argVals[i]]; ok {
 			fr2.prov[p] = l
@@ -619,6 +621,15 @@ func (e *enc) invoke(x *ssa.Call) {
 		return
 	}
 	e.safety("nil", fmt.Sprintf("(not (= %s 0))", recv), x.Pos(), x.String())
+	// reflect.TypeOf(v).String(): the name of v's dynamic type
+	if tc, ok := c.Value.(*ssa.Call); ok && c.Method.Name() == "String" {
+		if cal := tc.Common().StaticCallee(); cal != nil && cal.String() == "reflect.TypeOf" {
+			if src, ok := e.typeOfArg[tc]; ok {
+				e.fr.val[x] = e.define("tyname", "String", e.typeNameOf(src))
+				return
+			}
+		}
+	}
 	// unknown interface method: deterministic function of receiver and arguments (no tracked side effects: assumption)
 	var args, sorts []string
 	args = append(args, recv)
